@@ -9,6 +9,7 @@ pub mod c06;
 pub mod c07;
 pub mod c08;
 pub mod c09;
+pub mod c11;
 pub mod c13;
 pub mod c15;
 pub mod c16;
@@ -41,6 +42,7 @@ pub fn checks(id: &str, tier: Tier) -> Option<Vec<Check>> {
         "C07" => Some(c07::checks(tier)),
         "C08" => Some(c08::checks(tier)),
         "C09" => Some(c09::checks(tier)),
+        "C11" => Some(c11::checks(tier)),
         "C12" => Some(c12::checks(tier)),
         "C13" => Some(c13::checks(tier)),
         "C15" => Some(c15::checks(tier)),
